@@ -244,3 +244,8 @@ impl<T> VecExt for Vec<T> {
         self.len() as i64
     }
 }
+
+/// evaluation of a block operand (C11): logs which operand of which item was evaluated
+pub fn cap(site: u32, operand: i64) {
+    call(site, "cap", operand.canon());
+}
